@@ -816,6 +816,20 @@ def mutate_tree(rng, w, unknown_ids, level=0):
         elif r == 4 and fs:
             i = rng.below(len(fs))                                     # renumbered
             fs[i] = (fs[i][0], rng.pick(unknown_ids), fs[i][2])
+        elif r == 5 and fs:
+            # a copy of the lowest-id field under id 0 (or of the highest under 65535): an unknown field
+            # of exactly the type of a known neighbour -- it must still be skipped
+            lo = min(fs, key=lambda f: f[1])
+            hi = max(fs, key=lambda f: f[1])
+            if rng.chance(2, 3):
+                fs.insert(rng.below(len(fs) + 1), (lo[0], 0, lo[2]))
+            else:
+                fs.insert(rng.below(len(fs) + 1), (hi[0], 65535, hi[2]))
+        elif r == 6 and fs:
+            # a copy of a field under an id that aliases it if an index is truncated or offset
+            f = rng.pick(fs)
+            alias = rng.pick([f[1] ^ 0x100, f[1] ^ 0x8000, f[1] ^ 0x40, (f[1] + 1) & 0xffff, (f[1] - 1) & 0xffff, f[1] ^ 0xff00])
+            fs.insert(rng.below(len(fs) + 1), (f[0], alias, f[2]))
         if rng.chance(1, 3):
             for _ in range(1 + rng.below(2)):                          # unknown fields anywhere
                 c = rng.pick([2, 3, 4, 6, 8, 10, 11, 12, 13, 14, 15])
